@@ -69,7 +69,7 @@ def handle (op real : String) : Verdict := Id.run do
     -- fixed), and a close discards whatever the writer had not flushed yet.
     if agrees model att then return { kind := "ok", sig }
     return { kind := "diff", sig, detail := s!"model {model} real {att}" }
-  else if fam == "W" || fam == "T" then
+  else if fam == "W" || fam == "T" || fam == "U" || fam == "H" then
     return { kind := "ok", sig := sig0 }
   else if fam == "Z" then
     if att ≠ ["routed", "open"] then return { kind := "diff", sig := sig0, detail := s!"real {att}" }
